@@ -128,3 +128,41 @@ func verifHarness_C06_key(n int) {
 	verifAssert(verifEqBytes(key[:], want), "C06/e/key-independent-of-caller-slice")
 	verifReach("C06/e")
 }
+
+// (f) the signature check is made for every frame: after a correctly signed frame has been accepted, a second frame
+// that carries the very same signature block (link id, timestamp, signature) but differs somewhere in its header,
+// payload or checksum is refused all the same.
+func verifHarness_C06_replayed_trailer(n int) {
+	keyb := verifNondetBytes(32)
+	key := new(V2Key)
+	copy(key[:], keyb)
+	compat, seq, sys, comp, link := verifNondetU8(), verifNondetU8(), verifNondetU8(), verifNondetU8(), verifNondetU8()
+	id := verifNondetU32()
+	verifAssume(id < 1<<24)
+	ck := verifNondetU16()
+	ts := verifNondetU64()
+	verifAssume(ts < 1<<48)
+	payload := verifNondetBytes(n)
+	sig := verifSpecSignature(keyb, 1, compat, seq, sys, comp, id, payload, ck, link, ts)
+	good := verifSpecV2(1, compat, seq, sys, comp, id, payload, ck, true, link, ts, sig)
+	// the second frame: same trailer, a different sequence number / system id / checksum / first payload byte
+	d := verifNondetBytes(4)
+	verifAssume(verifNot(verifEqBytes(d, make([]byte, 4))))
+	p2 := append([]byte{}, payload...)
+	if n > 0 {
+		p2[0] ^= d[3]
+	} else {
+		verifAssume(verifNot(verifEqBytes(d[:3], make([]byte, 3))))
+	}
+	forged := verifSpecV2(1, compat, seq^d[0], sys^d[1], comp, id, p2, ck^uint16(d[2]), true, link, ts, sig)
+	// (the forged frame is not the spec-signed one: its own spec signature differs, modulo the hash)
+	sig2 := verifSpecSignature(keyb, 1, compat, seq^d[0], sys^d[1], comp, id, p2, ck^uint16(d[2]), link, ts)
+	verifAssume(verifNot(verifEqBytes(sig2, sig)))
+	rd := &Reader{ByteReader: &verifChunkReader{data: append(append([]byte{}, good...), forged...)}, InKey: key}
+	verifAssert(rd.Initialize() == nil, "C06/f/init")
+	_, err := rd.Read()
+	verifAssert(err == nil, "C06/f/correctly-signed-delivered")
+	fr, err := rd.Read()
+	verifAssert(err != nil && fr == nil, "C06/f/altered-frame-with-a-copied-signature-block-refused")
+	verifReach("C06/f")
+}
